@@ -532,15 +532,12 @@ pub fn gen_script(r: &mut Rng, name: &str, metric: &str, dim: usize, lim: &Limit
         s.ns = "n1".into();
         s.filter = Some(F::Not(Some(Box::new(F::Exact("a".into(), "b".into())))));
         p(Op::Search(s.clone()), lab("Search", "k-x-oversampling", "k=1000,ns,not"));
-        // the same extreme-but-valid request, and the overflowing query, several times in a row: whatever
-        // they make the tiers do must not add up (failure counters, breakers) to a server that stops serving
-        for n in 0..3 {
-            p(Op::Search(s.clone()), lab("Search", "k-x-oversampling-repeated", &n.to_string()));
-        }
+        // the same extreme-but-valid request, and the overflowing query, five times back to back inside ONE
+        // step (no census / probe in between): whatever they make the tiers do must not add up (failure
+        // counters, breakers) to a server that stops serving
+        p(Op::Search(s.clone()), lab("Search", "k-x-oversampling-burst", "k=1000,ns,not x5"));
         if let Some((_, v)) = kinds.iter().find(|(nm, _)| nm.contains("overflow")) {
-            for n in 0..4 {
-                p(Op::Search(sq(Vecr::of(v), 3)), lab("Search", "overflowing-query-repeated", &n.to_string()));
-            }
+            p(Op::Search(sq(Vecr::of(v), 3)), lab("Search", "overflowing-query-burst", "x5"));
         }
     }
     // ---- BulkSearch
